@@ -8,7 +8,7 @@ props = [json.loads(l) for l in open(os.path.join(V, 'properties.jsonl'))]
 CLAIMS = {
  "C01": ("asnlint", "static analysis: template vocabulary and #[rasn(..)] keys of every quote! body checked against the parsed prelude / derive of the pinned rasn; abstract evaluation (syntax-tree evaluator) of the sites where two generator fns must name the same item or type (definition vs reference of hoisted types, default-function names, integer-type selectors, From impls, import lists, empty SET, refused kinds, fixed-size values, hstrings behind references); keyword table against ref/rust_keywords.json; contradiction rule over link_with_type guards",
          "Necessary conditions of type-checking, each a named structural clause (DESIGN §3 C01): names and attribute keys resolve against the pinned rasn, paired sites agree for every evaluated shape, keywords are escaped. Type-checking of arbitrary generated programs is NOT decided by this family.",
-         "Trusted: the registry sources are the versions Cargo.lock pins; Rust prelude list. Seven recorded findings (known_findings.txt)."),
+         "Trusted: the registry sources are the versions Cargo.lock pins; Rust prelude list. Nine recorded findings (known_findings.txt), two of them the serial-constraint disagreement shared with C06."),
  "C02": ("asnlint", "static analysis: sibling-agreement rule over every ASN1Type decision (SEQUENCE/SET, SEQUENCE OF/SET OF), traversal coverage of the five container kinds, adaptor whitelist over component-list chains, kind->type tables, abstract evaluation of the wrappers (Box iff recursive, set marker, DEFAULT annotation and helper, member formatter per component kind, rebuilders keep every field, mark_recursive on definition tables)",
          "Every decision over ASN1Type treats SET like SEQUENCE and SET OF like SEQUENCE OF; every linker traversal reaches all container kinds; no component-list chain filters, reorders or truncates; kind tables agree with the reference; wrappers are applied under their exact conditions for every evaluated shape.",
          "Not decided: that nom delivers the components it saw; hoisted names for arbitrary nesting. Two recorded findings."),
@@ -23,7 +23,7 @@ CLAIMS = {
          "Trusted: rasn's extension_addition(_group)/non_exhaustive semantics. One recorded finding (COMPONENTS OF counted into the index)."),
  "C06": ("asnlint", "static analysis: region-exhaustive abstract interpretation of both width selectors (inputs used order-only, enforced), their agreement on every region and on set-operator shapes, the hull of operator chains (= C04.prec), literal rendering evaluated at the ends of every type's range, exhaustive enum tables, unpacking of outer extension markers",
          "One representative per region of the constant-induced partition of Z decides containment for all integers and presence/extensibility combinations; a fixed-width type only for a non-extensible constraint with both bounds finite; every literal denotes the value and fits its type.",
-         "Not decided: user literals outside their constraint."),
+         "Not decided: user literals outside their constraint. Two recorded findings (serially applied constraints: component type vs DEFAULT helper type)."),
  "C07": ("asnlint", "static analysis: exhaustive evaluation of literal tables and converters (hex digits, 256 octets, X.660 arcs positionally, string constructors); whole-function evaluation of link_with_type / link_struct_like / link_enum_or_distinguished / format_oid on distilled scenarios (value references, named numbers and enumerals incl. nested and behind reference chains, CHOICE / SEQUENCE / list values, written vs DEFAULT vs omitted components, implicit DEFAULTs raw and linked)",
          "Table clauses over their whole domain; for every evaluated scenario the linked value denotes the source value and is rendered under the name the type is declared with.",
          "Everything depending on arbitrary literal contents is not decided. Two recorded findings (OPTIONAL components of SEQUENCE values)."),
@@ -32,7 +32,7 @@ CLAIMS = {
          "Trusted: MIR at mir-opt-level=0 exposes all panics as calls/asserts; curated list of panicking library callees; reviewer assertions in audit/*.json. Two recorded findings (parser recursion depth)."),
  "C09": ("asnlint", "static analysis: detector/rewriter symmetry and traversal coverage; phase order of Validator::link; evaluation of the splice, selection, parameter, scope-lookup, value-chain and rebuild functions on definition tables (incl. name orders)",
          "Each notation detector and its rewriter visit the same containers and constraint kinds; importing steps precede resolving steps, values are linked in a later pass; lookups prefer the governing type. The equivalence sugared = expanded itself is NOT decided.",
-         "Four recorded findings (COMPONENTS OF appended at the end, untyped fallback, parameter expansion)."),
+         "Five recorded findings (COMPONENTS OF appended at the end, untyped fallback, parameter expansion, tag of a selected alternative lost)."),
  "C10": ("asnlint", "static analysis: exhaustive variant analysis of every generator dispatch evaluated whole (generated / reported / silent); removal sites of the linker re-insert on every branch; every bound error of the validator is pushed or returned; folds evaluated for Ok/Err; misread value assignments reported (same and imported governing type); trailing trivia of tail parsers",
          "No IR variant outside the documented silent categories reaches an empty output; warnings are local and none is dropped. The bare-name map key is a recorded finding.",
          "Thorough tier adds a compile_fail witness that CompilerError exposes no bindings."),
